@@ -77,6 +77,10 @@ VARIANTS = {
   fault('reader-touches-index', F(BT, 'BlockCode.read', "                lines.backstep()\n                break\n", "                lines._index -= 1\n                break\n"), 'R-CURSOR-LOCAL'),
   fault('set_pos-arithmetic', F(BT, 'List.read', 'lines.set_pos(anchor)', 'lines.set_pos(anchor - 1)'), 'R-CURSOR-LOCAL'),
   fault('dispatch-resumes-scan', F(BK, 'tokenize_block', "        for token_type in token_types:", "        for token_type in list(token_types)[1:]:"), 'R-DISPATCH-RESTART'),
+  fault('dispatch-no-break', F(BK, 'tokenize_block', "                    parse_buffer.append((token_type, result, line_number))\n                    break\n",
+                               "                    parse_buffer.append((token_type, result, line_number))\n"), 'R-DISPATCH-RESTART'),
+  fault('dispatch-call-between', F(BK, 'tokenize_block', "                line_number = lines.line_number() + 1\n",
+                                   "                line_number = lines.line_number() + 1\n                token_types[0].start(line)\n"), 'R-SCRATCH-NO-REENTRY'),
   fault('codefence-read-restarts', F(BT, 'CodeFence.read', "        next(lines)\n        line_buffer = []", "        cls.start(next(lines))\n        line_buffer = []"), 'R-SCRATCH-NO-REENTRY'),
  ],
  'C06': [
